@@ -91,7 +91,7 @@ def judge_tree(ctx, eng, tree, r, host_i, redundant, use_public=False):
     if got != want:
         res.violation("structure-changed", case, {"stored": stored, "tree": got}, {"tree": want})
         return
-    if any(w in stored for w in ("&&", "||")) or _has_bang_not(stored):
+    if _has_symbol_logic(stored):
         res.violation("logical-spelling-not-normalised", case, stored, "AND / OR / NOT")
     # fixed point
     res.count("fixed_point_checks")
@@ -112,9 +112,10 @@ def judge_tree(ctx, eng, tree, r, host_i, redundant, use_public=False):
         res.sample({"host": f"{typ}.{key}", "source": src, "stored": stored})
 
 
-def _has_bang_not(stored):
+def _has_symbol_logic(stored):
+    """&& || ! as OPERATORS of the stored string (the same characters inside a string literal are content)."""
     toks = X.tokenize(stored)
-    return any(k == "op" and v == "!" for k, v in toks)
+    return any(k == "op" and v in ("!", "&&", "||") for k, v in toks)
 
 
 VERBATIM = [
